@@ -140,6 +140,28 @@ def check(run):
                          {'kind': 'spec-xproc', 'spec': s, 'index': j, 'hashseeds': [s_[0] for s_ in seeds], 'visits': [s_[2] for s_ in seeds], 'all_specs': sub if len(json.dumps(sub)) < 400000 else None})
     finally:
         core.rm_rf(d)
+    # values outside the modelled universe (record arrays with object fields, lambdas compiled under differently spelled file names):
+    # real code only, three representations in this process and one per fresh interpreter
+    from jugverif import hashextras as hx
+    here = [hx.ids(v) for v in (0, 1, 2)]
+    procs = []
+    for v, hs in ((0, '0'), (3, '9'), (4, 'random'), (7, '123')):
+        procs.append(subprocess.Popen([sys.executable, '-m', 'jugverif.hashextras', str(v)], stdout=subprocess.PIPE, stderr=subprocess.PIPE, text=True, env=dict(os.environ, PYTHONHASHSEED=hs)))
+    there = []
+    for p in procs:
+        o, e = p.communicate(timeout=600)
+        if p.returncode != 0:
+            raise core.InfraError('hashextras failed: ' + e[-500:])
+        there.append([tuple(x) for x in json.loads(o)])
+    for j, (label, _) in enumerate(here[0]):
+        run.case(('extra', label), nontrivial=True)
+        run.count('extra_values')
+        a = [h[j][1] for h in here]
+        b = [t[j][1] for t in there]
+        if len(set(a)) != 1 or a[0].startswith('EXC'):
+            run.fail('representation-dependent', 'identifier of "%s" depends on object identity / layout / file-name spelling within one process: %s' % (label, a), {'kind': 'extra', 'label': label, 'index': j})
+        elif len(set(a + b)) != 1:
+            run.fail('process-dependent', 'identifier of "%s" differs between interpreter processes: here %s, fresh interpreters %s' % (label, a[0], b), {'kind': 'extra', 'label': label, 'index': j})
     run.counts['kinds'] = kinds
     if drv is not None:
         if bad_corr == 0:
@@ -179,6 +201,15 @@ def replay(path):
             core.rm_rf(dd)
         print('identifiers per PYTHONHASHSEED', dict(zip(r['hashseeds'], hs)))
         ok = len(set(hs)) == 1
+    elif r.get('kind') == 'extra':
+        from jugverif import hashextras as hx
+        j = r['index']
+        hs = [hx.ids(v)[j][1] for v in (0, 1, 2)]
+        for v, h in ((3, '9'), (4, 'random')):
+            o = subprocess.check_output([sys.executable, '-m', 'jugverif.hashextras', str(v)], env=dict(os.environ, PYTHONHASHSEED=h), text=True)
+            hs.append(json.loads(o)[j][1])
+        print('identifiers of "%s" in three representations here and two fresh interpreters:' % r['label'], hs)
+        ok = len(set(hs)) == 1 and not hs[0].startswith('EXC')
     else:
         print(d['what'])
         return 1
